@@ -363,8 +363,14 @@ func (e *Exception) M__getattr__(name string) (Object, error) {
 }
 
 func (e *Exception) M__str__() (Object, error) {
-	msg := e.Args.(Tuple)[0]
-	return msg, nil
+	args, _ := e.Args.(Tuple)
+	switch len(args) {
+	case 0:
+		return String(""), nil
+	case 1:
+		return Str(args[0])
+	}
+	return Str(args)
 }
 
 func (e *Exception) M__repr__() (Object, error) {
